@@ -366,6 +366,10 @@ fn iterx_run<I: Iterator<Item = Date> + Clone>(mut it: I, ops: &str) -> String {
             'n' => out.push(show_opt_date(&it.nth(1))),
             'm' => out.push(show_opt_date(&it.nth(5))),
             'k' => out.push(show_opt_date(&it.nth(40))),
+            'g' => out.push(show_opt_date(&it.nth(27))),
+            'y' => out.push(show_opt_date(&it.nth(364))),
+            'Y' => out.push(show_opt_date(&it.nth(365))),
+            'q' => out.push(show_opt_date(&it.nth(1460))),
             'S' => {
                 let mut sb = it.by_ref().step_by(7);
                 out.push(show_opt_date(&sb.next()));
